@@ -37,8 +37,21 @@ EFFECTS = {
     ("basic", "load_basic_bindings.<locals>._insert_text"): 17,
     ("basic", "load_basic_bindings.<locals>._paste"): 18,
     ("cpr", "load_cpr_bindings.<locals>._"): 19,
+    ("gen_t_c17", "c17_extra_noop"): 12,
 }
 KEY_OFFSET = 1000       # a one-character key c is KEY_OFFSET + ord(c); a Keys member its index in list(Keys)
+
+
+def c17_extra_noop(event):
+    """handler of the user binding ('c-c', 'c-c') of the 'extra' scenarios: it makes c-c, which
+    ends the prompt, the prefix of a longer binding, so that the exit fires from the retry scan"""
+
+
+def extra_key_bindings():
+    from prompt_toolkit.key_binding import KeyBindings
+    kb = KeyBindings()
+    kb.add("c-c", "c-c")(c17_extra_noop)
+    return kb
 
 
 def die(msg):
@@ -73,16 +86,16 @@ def key_code(k, kid):
     die("unexpected key in a binding: %r" % (k,))
 
 
-def session_rows():
+def session_rows(extra=False):
     """(rows, kid); also used by harness/c17.py to map handlers to effect codes."""
     import asyncio
 
     async def go():
-        return _session_rows()
+        return _session_rows(extra)
     return asyncio.run(go())
 
 
-def _session_rows():
+def _session_rows(extra=False):
     from prompt_toolkit import PromptSession
     from prompt_toolkit.application import create_app_session
     from prompt_toolkit.application.current import set_app
@@ -96,7 +109,7 @@ def _session_rows():
     rows = []
     with create_pipe_input() as inp:
         with create_app_session(input=inp, output=DummyOutput()):
-            s = PromptSession()
+            s = PromptSession(key_bindings=extra_key_bindings()) if extra else PromptSession()
             app = s.app
             with set_app(app):
                 try:
@@ -142,6 +155,13 @@ def t_C17_Bindings():
     body += "Definition c17_key_BracketedPaste : Z := %d.\n" % kid[Keys.BracketedPaste]
     body += "Definition c17_bindings : list (list Z * (Z * (Z * Z))) := [\n"
     body += ";\n".join("  (%s, (%d, (%d, %d)))" % (zlist(p), e, am, em) for p, e, am, em, _ in rows)
+    body += "].\n"
+    # the same session with the user binding ('c-c', 'c-c'): its rows come after all the others
+    xrows, _ = session_rows(extra=True)
+    if [r[:4] for r in xrows[:len(rows)]] != [r[:4] for r in rows] or len(xrows) != len(rows) + 1:
+        die("the user key bindings of PromptSession(key_bindings=...) are no longer merged after all other bindings")
+    body += "Definition c17_extra_rows : list (list Z * (Z * (Z * Z))) := [\n"
+    body += ";\n".join("  (%s, (%d, (%d, %d)))" % (zlist(p), e, am, em) for p, e, am, em, _ in xrows[len(rows):])
     body += "].\n"
     return emit("C17_Bindings", body)
 
